@@ -93,6 +93,31 @@ def run_history(n, ops):
     return out
 
 
+def random_partial_check(n, seed):
+    """a partial dict update whose value is a distribution (drawn at assignment): the named parameter gets a draw from it, every
+    other parameter keeps its value — also after the model re-draws (integrate).  -> None or what fails"""
+    import scipy.stats as st
+    m = fresh_model(n)
+    base = [float(10 + 3 * i) for i in range(n)]
+    m.parameters = list(base)
+    k = seed % n
+    np.random.seed(seed)
+    for form in ("frozen", "tuple"):
+        if form == "frozen":
+            m.parameters = {NAMES[k]: st.uniform(0.4, 0.2)}
+        else:
+            import pygom.utilR as uR
+            m.parameters = {NAMES[k]: (uR.runif, (0.4, 0.6))}
+        seen = [float(v) for v in np.asarray(m.ode(np.zeros(n), 0.0)).ravel()]
+        for i in range(n):
+            if i != k and seen[i] != base[i]:
+                return ("after parameters = {%s: <%s uniform(0.4, 0.6)>} on a model holding %s, parameter %s evaluates to %r"
+                        % (NAMES[k], form, base, NAMES[i], seen[i]))
+        if not 0.4 <= seen[k] <= 0.6:
+            return "parameter %s given a uniform(0.4, 0.6) distribution (%s form) evaluates to %r" % (NAMES[k], form, seen[k])
+    return None
+
+
 # ------------------------------------------------------------------ independent specification (Python)
 def spec_history(n, ops):
     """the property read literally: name -> value map; full forms replace, dict merges, rejected = no-op.
@@ -275,6 +300,14 @@ def run(ck):
             key = o["kind"] + (":ok" if r["ok"] else ":rejected")
             dist[key] = dist.get(key, 0) + 1
     ck.notes["input_distribution"] = dist
+    for n_, sd in ((3, 1), (2, 4), (5, 7)):
+        ck.case(dict(kind="random-partial", n=n_, seed=sd), nontrivial=True)
+        try:
+            bad = random_partial_check(n_, sd)
+        except Exception as e:          # noqa: BLE001
+            bad = "%s: %s" % (type(e).__name__, str(e)[:150])
+        if bad:
+            ck.violation("binding-mismatch/random-partial", bad, dict(kind="random-partial", n=n_, seed=sd))
     # ---- K: the Coq model (with the extracted alias fact) against the implementation, op by op
     files = []
     shard = 400
@@ -307,5 +340,7 @@ def run(ck):
 
 def replay(ck, data):
     h = data["input"]
+    if h.get("kind") == "random-partial":
+        return random_partial_check(h["n"], h["seed"])
     j = judge(h, run_history(h["n"], h["ops"]))
     return j[1] if j else None
